@@ -661,6 +661,32 @@ func OnCleanup(f func()) {
 	}
 }
 
+var touchObjs map[string]*Obj
+
+var kTouch = HashString("touch")
+
+func init() {
+	OnStart(func() { touchObjs = map[string]*Obj{} })
+}
+
+// Touch makes an unsynchronised access to a shared field (listed in cmd/ovgen's racyFields)
+// visible: a scheduling point followed by a happens-before step on the field's object. All
+// instances of a field share one object (over-approximates dependence, which only costs
+// pruning).
+func Touch(name string, write bool) {
+	s := cur
+	if s == nil || atomic.LoadInt32(&s.aborting) != 0 {
+		return
+	}
+	Point()
+	o := touchObjs[name]
+	if o == nil {
+		o = &Obj{}
+		touchObjs[name] = o
+	}
+	Record(o, kTouch, write, 0)
+}
+
 // SetTimers installs the virtual timer source.
 func SetTimers(ts TimerSource) { timerSource = ts }
 
